@@ -59,6 +59,9 @@ def Registry.lookup (r : Registry) (n : String) : Option Tool :=
 def Registry.set (r : Registry) (n : String) (t : Tool) : Registry :=
   if r.any (fun p => p.1 == n) then r.map (fun p => if p.1 == n then (n, t) else p) else r ++ [(n, t)]
 
+/-- `del self.tools[name]` / `self.tools.pop(name, None)` (the registry is a public dict) -/
+def Registry.erase (r : Registry) (n : String) : Registry := r.filter (fun p => !(p.1 == n))
+
 structure St where
   reg : Registry := []
   events : List Tool := []         -- tool bodies that ran, oldest first
@@ -140,6 +143,7 @@ def toolLoop (g : Guards) (allowed : Option (List Cap)) : Nat → St → List (L
 
 inductive Op where
   | register (n : String) (t : Tool)
+  | unregister (n : String)
   | metabolize (pre : Pre) (callee : Callee) (argsOk : Bool)
   | call (n : String)
   | loop (maxIter : Nat) (autoExecute : Bool) (rounds : List (List String))
@@ -149,6 +153,7 @@ inductive Op where
     `auto_execute=False` -/
 def step (g : Guards) (allowed : Option (List Cap)) (s : St) : Op → St
   | .register n t => { s with reg := s.reg.set n t }
+  | .unregister n => { s with reg := s.reg.erase n }
   | .metabolize pre callee argsOk => (metabolize g allowed s pre callee argsOk).1
   | .call n => (executeToolCall g allowed s n).1
   | .loop k auto rounds =>
